@@ -113,7 +113,7 @@ def generate(repo: Path) -> str:
     order = [
         ("if custom_metadata is None:", False), ("if batch.num_rows != 0:", False), ("level_bytes = custom_metadata.get(LOG_LEVEL_KEY)", False),
         ("message_bytes = custom_metadata.get(LOG_MESSAGE_KEY)", False), ("if level_bytes is None or message_bytes is None:", False),
-        ("if level_str == Level.EXCEPTION.value:", False), ("raise RpcError(error_type, message_str, traceback_str, request_id=request_id)", False),
+        ("if level_str == Level.EXCEPTION.value:", False), ("raise RpcError(error_type, message_str, traceback_str", True),
         ("level = Level(level_str)", False), ("except ValueError:", False), ("msg = Message(level, message_str)", False),
         ("if on_log is not None:", False), ("on_log(msg)", False),
     ]
